@@ -152,6 +152,8 @@ def ref_diagonal(h: int, w: int):
 
 
 def run(repo: Repo, rep: Report) -> None:
+    from .encodings import engine_selfcheck
+    engine_selfcheck(rep)
     rep.rule("ENC-S", "not_adjacent excludes exactly the graph's edges (grid form = grid graph's edges); the generic not-segmenting route composes it with connectivity of the complement; the grid route posts the reference diagonal-rank schema")
     rep.saw(GRAPH, "active_vertices_not_adjacent")
     from .encodings import standard_history
